@@ -191,7 +191,7 @@ fn main() {
     ctx.level("model_checking");
     ctx.rule("E1: every shape r x c with r*c <= 12 (quick) / r,c <= 4 (thorough) and EVERY sparsity pattern, built by from_triplets in every permutation of the triplet list (nnz <= 5) or 8 fixed orders, and by from_vecs; shapes up to 8x8 through 11 pattern families; all views (get for every (i,j), to_triplets, to_dense, col_index) and the CSC invariants against a BTreeMap. E2: BFS over histories of insert (fresh and overwriting) / scale / transpose on real Sparse<Rat> objects starting from empty 2x3, 3x3, 1x4 matrices, state = the complete public CSC arrays. Non-trivial: empty rows/columns, empty matrix, rectangular shapes, triplet lists out of column order, overwrites, unsorted rows inside a column.");
     ctx.assume("duplicate triplets are outside the claim (the property speaks of duplicate-free entry sets)");
-    ctx.require(&["pattern with an empty column", "pattern with an empty row", "empty matrix", "rectangular", "triplet list not in column order", "overwrite of an existing entry", "fresh insert", "transpose in a history", "state with unsorted rows inside a column", "large shape"]);
+    ctx.require(&["pattern with an empty column", "pattern with an empty row", "empty matrix", "rectangular", "triplet list not in column order", "overwrite of an existing entry", "fresh insert", "transpose in a history", "state with unsorted rows inside a column", "large shape", "typed sparse case (f64, Complex<f64>)"]);
     let lim = ctx.pick(12, 16);
     for r in 0..=4usize {
         for c in 0..=4usize {
@@ -203,5 +203,6 @@ fn main() {
     family_space(&ctx, 8);
     let depth = ctx.pick(5, 7);
     run_bfs(&ctx, "insert/scale/transpose histories", &[(2, 3), (3, 3), (1, 4)], Mode::Views, depth, ctx.pick(1_500_000, 30_000_000), ctx.quick());
+    typed_spaces(&ctx, &[(2, 2), (2, 3), (3, 2), (1, 4), (3, 3)], false);
     std::process::exit(ctx.finish());
 }
